@@ -43,6 +43,10 @@ type ctl struct {
 
 	// the next Get fails once with a transient engine error
 	getFault bool
+	// getdelay <ms>: the next point Get sleeps; iterslow <ms> from=<hex>: every Next of an iterator that starts at <hex> sleeps
+	getDelay    time.Duration
+	iterSlow    time.Duration
+	iterSlowKey []byte
 
 	// engine transactions begun ahead of the request that will use them (`prebegin <id>`; on TiKV the start timestamp
 	// is taken by BeginBatchWrite): a request run with `txn=<id>` commits its (first) batch through the one begun
@@ -384,7 +388,14 @@ func (w *kvWrap) Get(ctx context.Context, key []byte) ([]byte, error) {
 	w.c.mu.Lock()
 	gf := w.c.getFault
 	w.c.getFault = false
+	gd := w.c.getDelay
+	w.c.getDelay = 0
 	w.c.mu.Unlock()
+	if gd > 0 {
+		// getdelay <ms>: the next point Get of the engine takes that long (a slow engine): whatever the caller has promised
+		// its client by then must already hold
+		time.Sleep(gd)
+	}
 	if gf {
 		return nil, errInjected
 	}
@@ -396,11 +407,15 @@ type itWrap struct {
 	c     *ctl
 	fault int // fail this iterator's fault-th Next call once (0 = never)
 	calls int
+	slow  time.Duration // every Next of this iterator takes that long (iterslow)
 }
 
 // Next injects one transient (non-EOF) error in the middle of a scan: the scanner retries the partition.
 func (it *itWrap) Next(ctx context.Context) error {
 	it.calls++
+	if it.slow > 0 {
+		time.Sleep(it.slow)
+	}
 	if it.fault > 0 && it.calls == it.fault {
 		it.c.mu.Lock()
 		it.c.iterFaultsFired++
@@ -425,8 +440,12 @@ func (w *kvWrap) Iter(ctx context.Context, start, end []byte, ts uint64, limit u
 			f = w.c.iterFaultPersist
 		}
 	}
+	var slow time.Duration
+	if w.c.iterSlow > 0 && bytes.Equal(start, w.c.iterSlowKey) {
+		slow = w.c.iterSlow
+	}
 	w.c.mu.Unlock()
-	return &itWrap{Iter: it, c: w.c, fault: f}, nil
+	return &itWrap{Iter: it, c: w.c, fault: f, slow: slow}, nil
 }
 
 func unwrapIter(it storage.Iter) storage.Iter {
